@@ -136,7 +136,7 @@ def run_one(rac, hist):
         s1 = snap(w.m, w.data)
         exp, act = orc.expected(), w.actual()
         bad = [(G.locstr(l), act[l], exp[l]) for l in G.LOCS if not G.close(exp[l], act[l])]
-        if bad and not (orc.sibling_feed() or G.declared_cycle(w.m)):
+        if bad and not (orc.sibling_feed() or w.k1_seen or G.declared_cycle(w.m)):
             rac.fail(key, f"C17 {key}: dependants not updated: {bad[:3]}", script(hist, body), "Manager.set_value")
         if any(s0[k] != s1[k] for k in ("defs", "tasks", "idx", "frozen")):
             rac.fail(key, f"C17 {key}: definitions/indices changed by a plain assignment", script(hist, body),
